@@ -935,6 +935,15 @@ impl Monitor {
                         }
                         if !was_enabled && (call_ok || matches!(self.srcs[s].kind, Kind::Comp { .. })) {
                             self.taint(s, "update_while_disabled");
+                            // on a Generic this can only have succeeded by rewriting the registration another source
+                            // holds for the same (shared) fd: the misuse reaches that source as well
+                            if let Kind::Gen { .. } = self.srcs[s].kind {
+                                let fd = self.srcs[s].fd;
+                                let others: Vec<SrcId> = (0..self.srcs.len()).filter(|i| *i != s && matches!(self.srcs[*i].kind, Kind::Gen { .. }) && self.srcs[*i].fd == fd).collect();
+                                for o in others {
+                                    self.taint(o, "shared_fd_rewritten_by_update_of_disabled_source");
+                                }
+                            }
                         } else if was_enabled && !call_ok {
                             self.taint(s, "failed_reregister");
                         }
